@@ -24,7 +24,14 @@
      S6  one Deferred with n callbacks, callback i returns an already-fired Deferred.
      G1/G2  inlineCallbacks generator / coroutine awaiting n already-fired Deferreds.
      G3/G4  the same awaiting n already-failed Deferreds (caught each time).
-   cfg.kind: how the chain ends ("ok": link_n returns n+1; "err": link_n raises E1).   *)
+   cfg.kind: how the chain ends ("ok": link_n returns n+1; "err": link_n raises E1).
+   cfg.extra (S1..S4, S1E): links that carry more callbacks than link + probe --
+     "pre"   a pass-through callback pre_i added to d_i BEFORE its link;
+     "post"  a pass-through callback late_(i+1) added to d_(i+1) AFTER link_i has returned it,
+             i.e. after d_i was chained to it (cascade shapes: it sits behind the resume entry
+             and runs, with None, once the waiter has been resumed) or took its result
+             (stepwise shapes: it runs at once, with None);
+     "both"  both;   "none"  neither.                                                  *)
 EXTENDS Naturals, Integers, Sequences, FiniteSets
 
 VARIABLES cfg,     \* [shape |-> ..., kind |-> "ok" | "err"]
@@ -36,24 +43,43 @@ VARIABLES cfg,     \* [shape |-> ..., kind |-> "ok" | "err"]
 
 vars == <<cfg, n, pos, base, runs, last>>
 
-Whos == {"link", "own", "res", "gen"}
+Whos == {"link", "own", "res", "gen", "pre", "late"}
 Cascade == {"S1", "S3", "S1E"}
 Stepwise == {"S2", "S4"}
 Gens == {"G1", "G2", "G3", "G4"}
 Shapes == Cascade \cup Stepwise \cup {"S6"} \cup Gens
 
 Final(c, m) == IF c.shape = "S1E" \/ c.kind = "err" THEN <<"err", 1>> ELSE <<"ok", m + 1>>
-Total(c, m) == IF c.shape \in Cascade \cup Stepwise THEN 2 * m ELSE m
+P(c) == IF c.extra \in {"pre", "both"} THEN 1 ELSE 0      \* callbacks before the link
+Q(c) == IF c.extra \in {"post", "both"} THEN 1 ELSE 0     \* callbacks added after being returned
+Total(c, m) == IF c.shape \in Cascade \cup Stepwise THEN m * (P(c) + 2) + Q(c) * (m - 1) ELSE m
+FireVal(c, i) == IF c.shape = "S1E" THEN <<"err", 2>> ELSE <<"ok", i>>
+PyNone == <<"none", 0>>
 
 \* j-th observation of a run of length m: <<who, i, in>>
 Exp(c, m, j) ==
     CASE c.shape \in Cascade ->
-           IF j <= m THEN <<"link", j, IF c.shape = "S1E" THEN <<"err", 2>> ELSE <<"ok", j>> >>
-           ELSE IF j = m + 1 THEN <<"own", m, Final(c, m)>>
-           ELSE <<"res", 2 * m - j + 1, Final(c, m)>>
+           \* driving phase: (pre_i,) link_i for i = 1..m; then own_m, res_(m-1) .. res_1, late_2 .. late_m
+           LET w == P(c) + 1
+               d == m * w
+           IN IF j <= d THEN
+                LET i == (j - 1) \div w + 1
+                    r == (j - 1) % w + 1
+                IN IF P(c) = 1 /\ r = 1 THEN <<"pre", i, FireVal(c, i)>> ELSE <<"link", i, FireVal(c, i)>>
+              ELSE IF j = d + 1 THEN <<"own", m, Final(c, m)>>
+              ELSE IF j <= d + m THEN <<"res", m - (j - d) + 1, Final(c, m)>>
+              ELSE <<"late", j - d - m + 1, PyNone>>
       [] c.shape \in Stepwise ->
-           LET i == m - ((j + 1) \div 2) + 1
-           IN IF j % 2 = 1 THEN <<"link", i, <<"ok", i>> >> ELSE <<"own", i, Final(c, m)>>
+           \* step for i = m: (pre,) link, own; steps for i = m-1 .. 1: (pre,) link, own, (late_(i+1))
+           LET w1 == P(c) + 2
+               w  == P(c) + 2 + Q(c)
+               s  == IF j <= w1 THEN 1 ELSE 2 + (j - w1 - 1) \div w
+               r  == IF j <= w1 THEN j ELSE (j - w1 - 1) % w + 1
+               i  == m - s + 1
+           IN IF P(c) = 1 /\ r = 1 THEN <<"pre", i, <<"ok", i>> >>
+              ELSE IF r = P(c) + 1 THEN <<"link", i, <<"ok", i>> >>
+              ELSE IF r = P(c) + 2 THEN <<"own", i, Final(c, m)>>
+              ELSE <<"late", i + 1, PyNone>>
       [] c.shape = "S6" -> <<"link", j, <<"ok", j - 1>> >>
       [] c.shape \in {"G1", "G2"} -> <<"gen", j, <<"ok", j>> >>
       [] c.shape \in {"G3", "G4"} -> <<"gen", j, <<"err", 1>> >>
